@@ -92,10 +92,14 @@ type Decision struct {
 	NoDigest  bool    // manifest endpoint: omit the Docker-Content-Digest header
 
 	// further Link material (RFC 8288 allows several link-values and several header lines)
-	PostSame   []string // link-values appended to the next link's line after a comma, e.g. `<u>; rel="first"`
-	PostLines  []string // further Link header lines after the line with the next link
-	PreFirst   int      // 0: none; 1: a rel="first" link-value BEFORE the next link in the same line; 2: in a header line of its own before it
-	NoProgress bool     // internal: set when RawLink is used (no ground truth for the target)
+	PostSame  []string // link-values appended to the next link's line after a comma, e.g. `<u>; rel="first"`
+	PostLines []string // further Link header lines after the line with the next link
+	// raw query fragments appended verbatim to the link query, e.g. "tok=a;b" or "t=%zz" (legal URL
+	// text that url.ParseQuery rejects); their ground truth is ParseQueryLenient
+	RawPairs   []string
+	AltPath    bool // the next link points to the sibling path of the request path (".../~p" <-> plain)
+	PreFirst   int  // 0: none; 1: a rel="first" link-value BEFORE the next link in the same line; 2: in a header line of its own before it
+	NoProgress bool // internal: set when RawLink is used (no ground truth for the target)
 }
 
 // Exchange is one logged request/response pair.
@@ -158,6 +162,12 @@ type Registry struct {
 	Repos     []Item              // catalog in the registry's order
 	Referrers map[string][]Item   // repository + "@" + subject digest -> referrers in the registry's order
 	Manifests map[string]Manifest // repository + "@" + tag or digest -> manifest
+	// CursorKey is the query key of the continuation the registry writes into its next links and
+	// reads back ("" = "last", the key clients use for the start value).  With another key the
+	// cursor is opaque to the client: its value is CursorSalt + <name of the last item>, and the
+	// next link carries no "last" at all.
+	CursorKey  string
+	CursorSalt string
 	// NoReferrersAPI makes the referrers endpoint answer 404 (code NOT_FOUND), like a registry without it
 	NoReferrersAPI bool
 	// Decide is the split oracle; x has Kind, Repo, Path and Query filled in.
@@ -231,7 +241,10 @@ func (r *Registry) RoundTrip(req *http.Request) (*http.Response, error) {
 		req.Body.Close()
 	}
 	p := req.URL.Path
-	x := &Exchange{Path: p, Query: req.URL.Query()}
+	x := &Exchange{Path: p, Query: ParseQueryLenient(req.URL.RawQuery)}
+	// listings are also served under the sibling path <path>/~p (Decision.AltPath)
+	alt := strings.HasSuffix(p, "/~p")
+	p = strings.TrimSuffix(p, "/~p")
 	var items []Item
 	switch {
 	case (req.Method == http.MethodGet || req.Method == http.MethodHead) && strings.HasPrefix(p, "/v2/") && strings.Contains(p, "/manifests/"):
@@ -276,7 +289,15 @@ func (r *Registry) RoundTrip(req *http.Request) (*http.Response, error) {
 	}
 
 	// the page
-	rest := After(items, x.Query.Get("last"))
+	ck := r.CursorKey
+	if ck == "" {
+		ck = "last"
+	}
+	cur := x.Query.Get("last")
+	if ck != "last" && x.Query.Has(ck) {
+		cur = strings.TrimPrefix(x.Query.Get(ck), r.CursorSalt)
+	}
+	rest := After(items, cur)
 	n, _ := strconv.Atoi(x.Query.Get("n"))
 	m := PageLen(d.M, r.Cap, n)
 	if m > len(rest) {
@@ -299,11 +320,29 @@ func (r *Registry) RoundTrip(req *http.Request) (*http.Response, error) {
 	h := http.Header{}
 	// the link
 	if x.More {
-		x.TPath = p
-		x.TQuery = append([]KV{{"last", x.Unfilt[m-1].Name}}, d.Extra...)
+		x.TPath = x.Path
+		if d.AltPath {
+			if alt {
+				x.TPath = p
+			} else {
+				x.TPath = p + "/~p"
+			}
+		}
+		cv := x.Unfilt[m-1].Name
+		if ck != "last" {
+			cv = r.CursorSalt + cv
+		}
+		x.TQuery = append([]KV{{ck, cv}}, d.Extra...)
+		for _, raw := range d.RawPairs {
+			for k, vs := range ParseQueryLenient(raw) {
+				for _, v := range vs {
+					x.TQuery = append(x.TQuery, KV{k, v})
+				}
+			}
+		}
 		keys := make([]string, 0, len(x.Query))
 		for k := range x.Query {
-			if k != "last" {
+			if k != "last" && k != ck {
 				keys = append(keys, k)
 			}
 		}
@@ -313,7 +352,7 @@ func (r *Registry) RoundTrip(req *http.Request) (*http.Response, error) {
 				x.TQuery = append(x.TQuery, KV{k, v})
 			}
 		}
-		x.Text = r.render(req.URL, x.TQuery, d)
+		x.Text = r.render(req.URL, x.TPath, x.TQuery, d)
 		x.HasLink = true
 		line := "<" + x.Text + ">" + d.Trailer
 		for _, v := range d.PostSame {
@@ -322,11 +361,11 @@ func (r *Registry) RoundTrip(req *http.Request) (*http.Response, error) {
 		if d.PreFirst != 0 {
 			// a link back to the first page, placed before the next link
 			for _, kv := range x.TQuery {
-				if kv.K != "last" {
+				if kv.K != "last" && kv.K != ck {
 					x.PreQuery = append(x.PreQuery, kv)
 				}
 			}
-			x.PreText = r.render(req.URL, x.PreQuery, d)
+			x.PreText = r.render(req.URL, x.Path, x.PreQuery, d)
 			pre := "<" + x.PreText + `>; rel="first"`
 			if d.PreFirst == 1 {
 				x.Links = []string{pre + ", " + line}
@@ -433,29 +472,70 @@ func (r *Registry) manifest(req *http.Request, x *Exchange) *http.Response {
 		Header: h, Body: x.body, ContentLength: int64(len(m.Content)), Request: req}
 }
 
-func (r *Registry) render(u *url.URL, q []KV, d Decision) string {
-	var qs string
-	if d.RawQuery {
-		parts := make([]string, len(q))
-		for i, kv := range q {
+// ParseQueryLenient reads a raw query the way a registry may: pairs separated by '&', key and
+// value separated by the first '='; what cannot be unescaped is taken literally.  (Unlike
+// url.ParseQuery it neither rejects ';' nor drops a pair with a malformed escape.)
+func ParseQueryLenient(raw string) url.Values {
+	v := url.Values{}
+	for _, seg := range strings.Split(raw, "&") {
+		if seg == "" {
+			continue
+		}
+		k, val, _ := strings.Cut(seg, "=")
+		if u, err := url.QueryUnescape(k); err == nil {
+			k = u
+		}
+		if u, err := url.QueryUnescape(val); err == nil {
+			val = u
+		}
+		v.Add(k, val)
+	}
+	return v
+}
+
+// render writes the link text for target path tpath and query q in the form d.Variant.  Pairs
+// that stem from d.RawPairs are written verbatim, everything else escaped.
+func (r *Registry) render(u *url.URL, tpath string, q []KV, d Decision) string {
+	rawOf := map[KV]string{}
+	for _, raw := range d.RawPairs {
+		k, val, _ := strings.Cut(raw, "=")
+		for kk, vs := range ParseQueryLenient(raw) {
+			for _, v := range vs {
+				rawOf[KV{kk, v}] = k + "=" + val
+			}
+		}
+	}
+	pairs := append([]KV(nil), q...)
+	if !d.RawQuery {
+		sort.SliceStable(pairs, func(i, j int) bool { return pairs[i].K < pairs[j].K })
+	}
+	parts := make([]string, len(pairs))
+	for i, kv := range pairs {
+		if raw, ok := rawOf[kv]; ok {
+			parts[i] = raw
+		} else {
 			parts[i] = url.QueryEscape(kv.K) + "=" + url.QueryEscape(kv.V)
 		}
-		qs = strings.Join(parts, "&")
-	} else {
-		v := url.Values{}
-		for _, kv := range q {
-			v.Add(kv.K, kv.V)
-		}
-		qs = v.Encode()
 	}
-	ep := u.EscapedPath()
+	qs := strings.Join(parts, "&")
+	ep := (&url.URL{Path: tpath}).EscapedPath()
+	same := tpath == u.Path
 	switch d.Variant % NumLinkVariants {
 	case LinkAbsolutePath:
 		return ep + "?" + qs
 	case LinkPathRelative:
+		if !same { // relative to the directory of the request path
+			if strings.HasPrefix(tpath, u.Path+"/") {
+				return "./" + ep[strings.LastIndexByte((&url.URL{Path: u.Path}).EscapedPath(), '/')+1:] + "?" + qs
+			}
+			return "../" + ep[strings.LastIndexByte(ep, '/')+1:] + "?" + qs
+		}
 		return "./" + ep[strings.LastIndexByte(ep, '/')+1:] + "?" + qs
 	case LinkQueryOnly:
-		return "?" + qs
+		if same {
+			return "?" + qs
+		}
+		return ep + "?" + qs
 	case LinkSchemeRel:
 		return "//" + r.Host + ep + "?" + qs
 	}
